@@ -79,7 +79,8 @@ def run_wqcases(chk, pid, runner, tier, seed, workdir, log, only_key):
     chosen = chosen[:12]
     # three-fold reproduction on the real code
     rr = os.path.join(workdir, "rerun.json")
-    json.dump([{"W": cases[i]["desc"]["W"], "L": cases[i]["desc"]["L"], "stimuli": cases[i]["desc"]["stimuli"]}
+    json.dump([{"W": cases[i]["desc"]["W"], "L": cases[i]["desc"]["L"], "opts": cases[i]["desc"].get("opts") or [],
+                "stimuli": cases[i]["desc"]["stimuli"]}
                for i, _, _ in chosen], open(rr, "w"))
     out2 = os.path.join(workdir, name + "-rerun")
     r2 = chk.run(base + ["-rerun", rr, "-times", "3", "-out", out2], cwd=workdir, timeout=120 if tier == "quick" else 600)
@@ -116,7 +117,7 @@ def run_wqcases(chk, pid, runner, tier, seed, workdir, log, only_key):
         res["failures"].append({
             "kind": "monitor" if v == 1 else "correspondence",
             "theorem_or_correspondence": corr,
-            "case": {k2: c["desc"][k2] for k2 in ("W", "L", "script", "generator", "steps")},
+            "case": {k2: c["desc"].get(k2) for k2 in ("new_queue", "num_cpu", "W", "L", "script", "generator", "steps")},
             "stimuli": c["desc"]["stimuli"], "key": c["key"], "verdict": v, "signature": sig,
             "reproduced": "%d/%d re-executions fail" % (f, n),
             "found_failing_input": v == 1,
